@@ -48,3 +48,31 @@ Definition delayed (s : series) (L tau j : nat) : list V :=
 Definition present (s : series) (L i : nat) : list V :=
   map (fun t => cell s t i) (seq L (length s - L)).
 End Lagged.
+
+(* ---- correspondence check (cells are integers) ------------------------------------------------ *)
+From Coq Require Import ZArith Bool.
+Fixpoint zlist_eqb (a b : list Z) : bool :=
+  match a, b with
+  | [], [] => true
+  | x :: a', y :: b' => Z.eqb x y && zlist_eqb a' b'
+  | _, _ => false
+  end.
+Fixpoint zmat_eqb (a b : list (list Z)) : bool :=
+  match a, b with
+  | [], [] => true
+  | x :: a', y :: b' => zlist_eqb x y && zmat_eqb a' b'
+  | _, _ => false
+  end.
+(* case = (series, L, target i, selected S, sidx, X handed to the estimator, Y, Z columns, (u, v, lag) of the edge) *)
+Definition check_edge_case
+  (c : list (list Z) * nat * nat * list nat * nat * list Z * list Z * list (list Z) * (nat * nat * nat)) : bool :=
+  let '(s, L, i, Sel, sidx, X, Y, Zs, lbl) := c in
+  let '(mx, my, mz) := edge_triple 0%Z s L i Sel sidx in
+  let '(u, v, lag) := lbl in
+  let '(mu, mv, mlag) := edge_label L i sidx in
+  zlist_eqb mx X && zlist_eqb my Y && zmat_eqb mz Zs && Nat.eqb u mu && Nat.eqb v mv && Nat.eqb lag mlag.
+(* selection phase: candidate column c and (standard) the own-lag block *)
+Definition check_column_case (c : list (list Z) * nat * nat * list Z) : bool :=
+  let '(s, L, cidx, X) := c in zlist_eqb (x_lagged_col 0%Z s L cidx) X.
+Definition check_ownlags_case (c : list (list Z) * nat * nat * list (list Z)) : bool :=
+  let '(s, L, i, Zs) := c in zmat_eqb (own_lags 0%Z s L i) Zs.
